@@ -1,7 +1,8 @@
 (* C01 — exact function discovery, span and length on canonical programs.
-   PARTIAL: what is proved is the pipeline theorem for the brace languages —
-   GIVEN that the matcher returns exactly the headers of the function descriptors
-   (hypothesis `extract_headers l code = OK hs /\ Permutation hs (map header_of ds)`),
+   PARTIAL only in that the lexers are oracles and that the formal grammars do not cover every construct the
+   generator draws; the layers, from the bottom:
+   PIPELINE (`C01_brace_pipeline_partial`, kept for reference): GIVEN that the matcher returns exactly the headers of
+   the function descriptors (hypothesis `extract_headers l code = OK hs /\ Permutation hs (map header_of ds)`),
    brace matching, the reverse-order pairing with block deletion, the nesting fold and
    the line counting report exactly the measurements the property prescribes
    (Scope/Spec.v: one per descriptor, in source order, name = the name token, span from
